@@ -50,6 +50,8 @@ DOCS = {
     'unicode-punct': '这是**“重要”**。 so-called*“experts”* agree 「*(aside)*」 and a*“b”*c\n',     # flanking decided by non-ASCII punctuation
     'toc-def': '# t\n\n## [l]: /leak\n\n## [r]: </leak2> "x"\n',
     'toc-ref': '# t\n\n## [l] x\n\n## y [r]\n',
+    # characters that every text renderer has to escape in its own way (what a renderer remembers about "escaping is on")
+    'specials': 'a & b % c $5 # e _f_ { g } h ~ i ^ j \\ k <l> "m" \'n\' | o\n\n- p & q_r\n\n`s & t_u`\n',
     'ext': '$x$ [[a|b]] {{m}}\ntext\n{{/m}}\n\n- item\n  > q `c`\n',
 }
 RENDER_CONFIGS = [
@@ -789,6 +791,7 @@ def quick_extra_alphabet():
     steps.append({'kind': 'subclass', 'doc': 'atx'})
     for how in REUSE_KINDS:
         steps.append({'kind': 'reuse-after-render-error', 'how': how, 'doc': 'tight-list' if how != 'latex-verb' else 'code'})
+        steps.append({'kind': 'reuse-after-render-error', 'how': how, 'doc': 'specials'})
     steps.append({'kind': 'nested-exit', 'outer': ['Ast', {}], 'inner': ['Html', {}]})
     steps.append({'kind': 'nested-exit', 'outer': ['Html', {}], 'inner': ['LaTeX', {}]})
     for r, f, place in (('Html', 'span-find', 'top'), ('LaTeX', 'block-start', 'quote-later'), ('Ast', 'span-ctor', 'quote')):
@@ -809,7 +812,7 @@ RE_ENTER_PAIRS = [('code', 'html'), ('html', 'custom-tag'), ('ref', 'toc-ref'), 
 
 
 # one renderer instance, two documents one after the other (what the first leaves on the instance must not show in the second)
-SAME_INSTANCE_PAIRS = [('code-pipe', 'code'), ('ref', 'toc-ref'), ('html', 'setext'), ('fence', 'code'), ('table', 'table-probe-code'), ('entity-def', 'entity-inline')]
+SAME_INSTANCE_PAIRS = [('code', 'specials'), ('code-pipe', 'code'), ('ref', 'toc-ref'), ('html', 'setext'), ('fence', 'code'), ('table', 'table-probe-code'), ('entity-def', 'entity-inline')]
 
 
 def quick_alphabet():
@@ -845,7 +848,7 @@ def full_alphabet():
     for d in SUBCLASS_DOCS:
         steps.append({'kind': 'subclass', 'doc': d})
     for how in REUSE_KINDS:
-        for d in ('tight-list', 'code', 'latex-packages', 'setext'):
+        for d in ('tight-list', 'code', 'latex-packages', 'setext', 'specials'):
             steps.append({'kind': 'reuse-after-render-error', 'how': how, 'doc': d})
     for r in ('Html', 'Markdown', 'LaTeX', 'Ast', 'Jira', 'XWiki20', 'GithubWiki', 'MathJax', 'Pygments'):
         for f in FAULT_KINDS:
